@@ -3,6 +3,10 @@ NOT_APPLICABLE = {}
 TECHNIQUE = {
     "C16": "TLA+ spec + TLC model checking; generated Rust programs compiled with the real macros, their logged values and compile verdicts validated as traces against the spec (TLC), both build profiles",
     "C17": "TLA+ spec + TLC model checking; generated #[derive(Codec)] programs compiled with the real derive, their logged tables and compile verdicts validated as traces against the spec (TLC), both build profiles",
+    "C09": "TLA+ spec + TLC model checking; trace validation (impl->spec) plus TLC-generated k-mer operation histories replayed into the real library (spec->impl), both build profiles",
+    "C13": "TLA+ spec + TLC model checking; trace validation (impl->spec) plus TLC-enumerated codons x offsets replayed (spec->impl), both build profiles; finite domain closed",
+    "C14": "TLA+ spec + TLC model checking; trace validation (impl->spec) plus TLC-enumerated IUPAC codons replayed (spec->impl), both build profiles; finite domain closed",
+    "C15": "TLA+ spec + TLC model checking over all fold orders; trace validation (impl->spec) plus TLC-enumerated maps and queries replayed (spec->impl), both build profiles",
     "C03": "TLA+ spec + TLC model checking; trace validation (impl->spec) plus TLC-generated slice expressions replayed into the real library (spec->impl), both build profiles",
     "C06": "TLA+ spec + TLC model checking; trace validation (impl->spec) plus TLC-generated edit histories replayed into the real library (spec->impl), both build profiles",
     "C11": "TLA+ spec + TLC model checking incl. a liveness property; trace validation (impl->spec) plus TLC-generated iterator runs replayed (spec->impl), both build profiles",
